@@ -6,7 +6,7 @@ PROP = "C14"
 LEVEL = "other"
 H = "vf.contracts.c_drivers."
 P = "a816.program.Program."
-FUNCTIONS = [P + "assemble_with_emitter", P + "assemble", P + "assemble_as_patch", P + "assemble_string_with_emitter"]
+FUNCTIONS = [P + "assemble_with_emitter", P + "assemble", P + "assemble_as_patch", P + "assemble_string_with_emitter", "a816.parse.nodes.SymbolNode.pc_after"]
 MIN_OBLIGATIONS = 30
 EXPLANATION = ("The driver functions are loop-free: each is executed path-completely on the real code with its callee replaced by an assumed "
                "outcome contract (returns None / returns an error message / raises NodeError, RuntimeError, KeyError, struct.error, ValueError / "
@@ -44,6 +44,19 @@ def emitter(B):
     return B.inst("a816.writers.IPSWriter", file=new_file(B.I, B.st, "wb"), _regions=B.list([]), _copier_header=False)
 
 
+def shape_symbol_node(deferred):
+    def sh(B):
+        res = shapes.resolver(B)
+        root = B.I.hget(B.st, res).fields["current_scope"]
+        inner = shapes.scope(B, res, root)
+        B.I.hmut(B.st, B.I.hget(B.st, res).fields["scopes"]).items.append(inner)
+        B.I.hmut(B.st, res).fields["current_scope"] = inner
+        v, d = B.int("v"), B.bool("defined")
+        node = B.inst("a816.parse.nodes.SymbolNode", symbol_name="name", expression=shapes.expression(B, v, defined=d), resolver=res, evaluation_scope=root if deferred else None)
+        return {"node": node, "addr": shapes.lorom_address(B), "v": v, "defined": d, "outer_scope": root}
+    return sh
+
+
 def cases(E):
     cs = []
     for exists in (True, False):
@@ -67,6 +80,9 @@ def cases(E):
                 cs.append(Case(H + "assemble_string_contract", f"parse_error={pe!r},resolve={ro},emit={eo}",
                                lambda B, pe=pe, ro=ro, eo=eo: {"program": program(B), "emitter": emitter(B), "parse_error": pe, "resolve_outcome": ro, "emit_outcome": eo},
                                target=[P + "assemble_string_with_emitter"], overrides=OVR_STR))
+    for deferred in (False, True):
+        cs.append(Case("vf.contracts.c_errors.symbol_node_contract", "`name = expr`" if not deferred else "deferred macro argument evaluated in the call-site scope", shape_symbol_node(deferred),
+                       target=["a816.parse.nodes.SymbolNode.pc_after"], overrides={"a816.parse.ast.expression.eval_expression": "vf.specs.stubs.eval_expression_model"}))
     # no generator may swallow an error of the statements it expands (callee contracts raise every error class an expansion can fail with)
     from vf.props import expansion
     cs += expansion.cases(E)
